@@ -37,6 +37,11 @@ extern "C" gsl_error_handler_t * gsl_set_error_handler(gsl_error_handler_t * h)
   return f(h);
 }
 
+// libc functions with hidden process-wide state: every call writes an instrumented proxy (see engine/nonreentrant.hpp)
+static volatile long g_nr_proxy[8];
+#define NR_HOOK(k) (g_nr_proxy[(k)] = g_nr_proxy[(k)] + 1)
+#include "nonreentrant.hpp"
+
 struct Rnd : bxdecay0::i_random {
   uint64_t phase = 1;
   size_t i = 0;
@@ -62,7 +67,8 @@ static void generator_body(int tid, bool dbd, const char * name, int level, int 
       g.shoot(r, ev);
     }
   } catch (std::exception & e) {
-    if (!ga) fprintf(stderr, "UNEXPECTED-EXCEPTION %s: %s\n", name, e.what());
+    (void)ga; // the driver installs synthetic gA datasets: an exception is as unexpected as for any other generator
+    fprintf(stderr, "UNEXPECTED-EXCEPTION %s: %s\n", name, e.what());
   }
 }
 
